@@ -262,7 +262,7 @@ func main() {
 	}
 
 	// KEYS on a populated keyspace, live and expired keys
-	keysChecked := 0
+	keysChecked, deadPlaced, keysHung := 0, 0, false
 	if hang == "" {
 		inproc.Setup(8, 1, filepath.Join(o.Work, "log"))
 		in := inproc.New()
@@ -280,12 +280,35 @@ func main() {
 		for i := 0; i < extra; i++ {
 			sample = append(sample, pats[r.Intn(len(pats))])
 		}
+		deadKeys := []string{"ab-dead", "b-dead", "a-dead", "*-dead", "]-dead", "\\-dead"}
 		for _, p := range sample {
 			_, _, unspec := model.GlobParse(p)
 			if unspec {
 				continue
 			}
-			res := in.Exec(respc.Cmd("KEYS", p), nil)
+			// keys whose deadline has passed and which nothing has reaped yet (forced through the verif hook): they
+			// are not live, and walking over them must not stop KEYS from returning
+			if keysChecked%16 == 0 {
+				for _, k := range deadKeys {
+					in.Exec(respc.Cmd("SET", k, "v"), nil)
+				}
+				in.ForceDead(deadKeys...)
+				deadPlaced += len(deadKeys)
+			}
+			var res inproc.Result
+			done := make(chan struct{})
+			go func(inst *inproc.Inst) { res = inst.Exec(respc.Cmd("KEYS", p), nil); close(done) }(in)
+			select {
+			case <-done:
+			case <-time.After(30 * time.Second):
+				buf := make([]byte, 1<<20)
+				buf = buf[:runtime.Stack(buf, true)]
+				report(witness{Kind: "hang", Pattern: p, Got: "KEYS did not return within 30 s with keys past their deadline (not yet reaped) in the keyspace\n" + inproc.TopFrames(string(buf), 10), Want: "termination", Sig: "keys-hang|dead-key"})
+				keysHung = true
+			}
+			if keysHung {
+				break
+			}
 			keysChecked++
 			cl := classOf(p)
 			if res.Panic != "" {
@@ -350,17 +373,18 @@ func main() {
 			"distinct_nontrivial": int(decided),
 			"rule": fmt.Sprintf("all patterns of length <= %d over {a b * ? [ ] ^ - \\} x all keys of length <= %d over {a b - ] \\}, each pair through util.PattenMatch under recover; "+
 				"non-trivial = pairs the documented grammar decides (broken patterns must match nothing); pairs hinging on undefined constructs only have to terminate without panic", o.Pick(4, 6), o.Pick(3, 4)),
-			"samples":                 []any{map[string]any{"pattern": "*[ab]", "key": "xa"}, map[string]any{"pattern": pats[len(pats)/2], "key": keys[len(keys)/2]}, map[string]any{"pattern": pats[len(pats)-1], "key": keys[len(keys)-1]}},
-			"exhaustive":              hang == "",
-			"patterns":                len(pats),
-			"keys":                    len(keys),
-			"pairs_decided":           decided,
-			"pairs_unspecified":       unspecified,
-			"pattern_classes":         classes,
-			"random_long_pairs":       longPairs,
-			"keys_commands_on_server": keysChecked,
-			"divergence_signatures":   len(sigs),
-			"known_finding_hits":      knownHits,
+			"samples":                               []any{map[string]any{"pattern": "*[ab]", "key": "xa"}, map[string]any{"pattern": pats[len(pats)/2], "key": keys[len(keys)/2]}, map[string]any{"pattern": pats[len(pats)-1], "key": keys[len(keys)-1]}},
+			"exhaustive":                            hang == "",
+			"patterns":                              len(pats),
+			"keys":                                  len(keys),
+			"pairs_decided":                         decided,
+			"pairs_unspecified":                     unspecified,
+			"pattern_classes":                       classes,
+			"random_long_pairs":                     longPairs,
+			"keys_commands_on_server":               keysChecked,
+			"dead_unreaped_keys_placed_before_keys": deadPlaced,
+			"divergence_signatures":                 len(sigs),
+			"known_finding_hits":                    knownHits,
 		},
 		Assumptions: []string{"reference matcher = 40-line matcher written from the documented grammar; Unspecified constructs: '-' first/last in a class, empty class, reversed range, '^' not first, escaped range endpoint",
 			"exhaustive only inside the stated length/alphabet box"}}
